@@ -176,6 +176,30 @@ def w_seed(task):
     return part
 
 
+def w_reuse(task):
+    """histories on ONE Context: sequences of same-signature definitions whose bodies share sub-expressions built in
+    different orders; the text of the last one must equal its fresh-Context text up to a consistent renaming of
+    generated variable names (names derived from construction counters legitimately differ) and layout."""
+    fa = setup_repo_import()
+    part = new_part()
+    tname = task["target"]
+    n = len(gen.REUSE_FUNCS)
+    fresh = [gen.alpha(gen.reuse_generate(fa, tname, [i])[0]) for i in range(n)]
+    import itertools
+
+    seqs = [list(q) for L in task["lengths"] for q in itertools.product(range(n), repeat=L)]
+    for seq in seqs:
+        texts = gen.reuse_generate(fa, tname, seq)
+        part["evaluations"] += 1
+        part["nontrivial"] += 1 if len(set(seq)) > 1 else 0
+        part["counters"]["reuse_transitions"] = part["counters"].get("reuse_transitions", 0) + len(seq)
+        if gen.alpha(texts[-1]) != fresh[seq[-1]]:
+            names = [gen.REUSE_FUNCS[i].__name__ for i in seq]
+            add_violation(part, f"context-reuse-dependent:{tname}:{names[-1]}", f"one Context, {names} for {tname}: the text of {names[-1]} differs (beyond variable renaming) from its fresh-Context text:\n{texts[-1][:600]}", {"kind": "reuse", "target": tname, "seq": seq})
+    part["samples"].append({"context_reuse": tname, "sequences": len(seqs)})
+    return part
+
+
 def euler_circuit(n):
     """Eulerian circuit of the complete digraph with loops on n vertices: every ordered pair adjacent once."""
     adj = {v: list(range(n)) for v in range(n)}
@@ -267,6 +291,8 @@ def run(run):
     run.counters["walk_generations"] = total_walk
     trans += total_walk
     seq = list(range(total_walk))
+    run.map(MOD, "w_reuse", [dict(target=t, lengths=[2, 3] if not thorough else [2, 3, 4]) for t in gen.REUSE_TARGETS])
+    trans += int(run.counters.pop("reuse_transitions", 0))
     seeds = [0, 1, 2, 12345] if not thorough else list(range(0, 31)) + [12345]
     seeds = seeds[:-1] + [(run.seed * 7919 + 13) % 4294967295]
     run.map(MOD, "w_seed", [dict(seed=s, reqs=[list(r) for r in reqs], table=table) for s in seeds])
@@ -281,6 +307,7 @@ def run(run):
         f"{len(reqs)} requests ({len(shipped)} from the five trace_arguments tables of results/update.py, {len(extra)} more: lax table, the six tools/generate_apmath_lax.py entries, four synthetic definitions x six targets); pristine table from forked children of an import-only zygote; all ordered pairs over {len(R2)} requests "
         + ("(all table requests); all triples over 36; " if thorough else "(subset covering every (target, function)); ") + f"all ordered pairs over the {len(SY)} small-graph requests and between them and {len(bridge)} table requests; "
         + f"{nw} long walks covering an Eulerian circuit of the complete request digraph ({len(seq)} generations); full catalogue under {len(seeds)} hash seeds in both orders; "
+        f"all sequences of length 2..{4 if thorough else 3} of {len(gen.REUSE_FUNCS)} same-signature definitions on ONE Context per target (text equal to the fresh-Context text up to renaming of generated names); "
         "states = distinct values of (tmp-symbol counter, definition registry, warn-once cache size, vfunc cache size) observed after a history"
     )
     run.assumptions = ["requests that raise NotImplementedError count as deterministic text (type and message)"]
@@ -291,6 +318,12 @@ def replay(case):
     part = new_part()
     if case.get("kind") == "seed":
         return [("seed: re-run the tier", str(case))]
+    if case.get("kind") == "reuse":
+        texts = gen.reuse_generate(fa, case["target"], case["seq"])
+        fresh = gen.reuse_generate(fa, case["target"], case["seq"][-1:])
+        if gen.alpha(texts[-1]) != gen.alpha(fresh[0]):
+            return [(f"context-reuse-dependent:{case['target']}:{gen.REUSE_FUNCS[case['seq'][-1]].__name__}", texts[-1][:600])]
+        return []
     hist = [tuple(h) for h in case["history"]]
     alone = in_child(lambda: {"s": gen.sha(gen.generate(fa, hist[-1]))})
     seq = in_child(lambda: {"s": [gen.sha(gen.generate(fa, q)) for q in hist][-1]})
